@@ -119,7 +119,8 @@ func zzSetupContents(nMax, contents int) (*kube.Store, *v1.Composition, []zzRev)
 			// owner references stripped by backup/restore
 			r.SetOwnerReferences(nil)
 		}
-		if i == 0 && k != cur && zz.Bool(nm+".hashLabelLost") {
+		if i == 0 && k != cur && (zz.Tier() != "thorough" || n == 1) && zz.Bool(nm+".hashLabelLost") {
+			// (thorough tier: only as the single pre-existing revision - time budget)
 			// a revision of some other content that no longer carries its hash
 			// label (written by an older release, hand-made, label removed): it
 			// says nothing about the current content
